@@ -309,6 +309,11 @@ def check_cfg(F, R, cfg):
             nf += 1 if f_ else 0
             (R.ok if ok else R.viol)("C06.formula", I(inst), str(msg), *(() if ok else (F.loc(f_) if f_ else "",)))
         R.floor("C06.formula", I("ristretto255 formula scenarios decided"), nf, 22 if F.has_cfg("feature=alloc") else 14)
+        ns = 0
+        for inst, f_, ok, msg in FR.point_sums(F, r"ristretto::RistrettoPoint"):
+            ns += 1
+            (R.ok if ok else R.viol)("C06.sum", I(inst), msg, *(() if ok else (F.loc(f_),)))
+        R.floor("C06.sum", I("Sum impls decided"), ns, 1)
 
 
 def same(a, b):
